@@ -5,7 +5,7 @@ those tests (3x, serially, machine otherwise idle) in /tmp/confirm with the chan
 both facts.  Usage: mutant_retest.py [ID-V ...]"""
 import glob, json, os, re, subprocess, sys
 
-W = '/tmp/confirm'
+W = os.environ.get('MUTQ_W', '/tmp/confirm')
 RES = '/verif/scratch/mutresults'
 
 def sh(cmd, timeout=3600):
